@@ -104,6 +104,20 @@ def run(F, R, tier):
         cmp_ = [n for n in walk(fors[0]["body"]) if n.get("k") == "Binary" and n["op"] in ("!=", "==")]
         ok = len(cmp_) == 1 and mentions_call(cmp_[0], ["FastCheckCacheModuleItem::source_hash"]) and any(mentions_call(y, ["fast_insecure_hash"]) for side in ("l", "r") for y in through_locals(peel_value(cmp_[0][side])))
         R.ob("C12-b", "validation compares the current source hash with the recorded one", ok, "comparison is `%s`" % (expr_text(cmp_[0]) if cmp_ else "?"), where(fors[0]))
+    # polarity: a mismatch rejects, agreement does not
+    for f_ in falses:
+        g = guards_at(F, f_)
+        mism = any(x.kind == "cond" and x.pol and x.node.get("k") == "Binary" and x.node["op"] == "!=" and mentions_call(x.node, ["FastCheckCacheModuleItem::source_hash"]) for x in g)
+        other = any(x.kind == "pat" or (x.kind == "cond" and not mentions_call(x.node, ["FastCheckCacheModuleItem::source_hash"])) for x in guards_at(F, f_, stop_at=fors[0] if fors else None))
+        if any(x.kind == "cond" and x.node.get("k") == "Binary" and mentions_call(x.node, ["FastCheckCacheModuleItem::source_hash"]) for x in g):
+            R.ob("C12-b", "a cache entry is rejected exactly when a source hash differs", mism,
+                 "is_cache_item_valid returns false when the hashes are *equal* (and accepts entries whose source changed)", where(f_))
+    # cached modules of a hit reach the result
+    cext = [n for n in bf["_nodes"] if n.get("k") == "MethodCall" and n["name"] == "extend" and peel(n["recv"]).get("lid") == res_lid and mentions_field(n["args"][0], "cache_items")]
+    if R.ob("C12-b", "modules served from the cache are added to the result", len(cext) == 1, "final_result.extend(package.cache_items) missing: a cache hit would yield no fast-check modules", bf["file"]):
+        g = guards_at(F, cext[0])
+        ok = any(x.kind == "cond" and not x.pol and x.node.get("name") == "is_empty" and mentions_field(x.node, "cache_items") for x in g)
+        R.ob("C12-b", "cached modules are used exactly when the package came from the cache", ok, "guards: %s" % [x.text()[:40] for x in g], where(cext[0]))
     # dependencies replayed from a cache hit
     deps = [n for n in tg["_nodes"] if n["k"] == "For" and mentions_field(n["iter"], "dependencies")]
     ok = len(deps) == 1 and any(callee_matches(x, ["PublicRangeFinder::add_pending_nv_no_referrer"]) for x in walk(deps[0]["body"]))
